@@ -120,6 +120,17 @@ CLAIMED = {
             'Virtual time advances only when all threads are blocked or sleeping; a weak-fairness bound pre-empts a spinning thread. '
             'After a time-of-day wait any origin between the awaited instant and the noticing tick is accepted.',
             'DESIGN.md section 6, C10'),
+    'C09': ('model_checking', 'TLC trace validation (TraceStop.tla) of the real JobControl/ScriptJob/Machine/Clock stack on real threads under a deterministic scheduler; stop injected at every scheduling point',
+            'Script shapes straight-line, infinite repeat, timed (1 s / 1000 s) and time-of-day run as queued jobs on the real stack '
+            '(virtual time, SimLan devices) with a second job queued behind and a third queued after the stop. A requester issues '
+            'stop_job / stop_current / stop-all systematically at every scheduling point (source lines of job_control.py, script_job.py, '
+            'machine.py, clock.py and every lock/event/sleep operation) after the job thread entered execute(), and at random points of '
+            'random-walk schedules. TLC validates every execution against TraceStop.tla: at most one more device command after the '
+            'request returned, the run ends within stated bounds (never lost), queued runs behind it start and complete, stop-all '
+            'leaves nothing to start, runs no stop was aimed at are unaffected.',
+            '"Started" = the job thread has entered the script job\'s execute(); the run the controller holds as current is read by the '
+            'harness at call/return of the request. Promptness bound: 3000 scheduler steps and 10 ticks after the request returned.',
+            'DESIGN.md section 6, C09'),
 }
 
 REASONS_PENDING = 'check not built yet in this round (planned in DESIGN.md section 6); no claim is made'
